@@ -1,9 +1,327 @@
 import ALV.Common.Json
+import ALV.Model.C09
+import ALV.Spec.C09
+import ALV.Spec.C08
 namespace ALV.Driver.C09
-open ALV ALV.J
+open ALV ALV.J ALV.C09
 
-/-- stub: the C09 slice is not built yet -/
-def handle (entry : String) (_j : Json) : Except String Json :=
-  throw s!"C09: unknown entry {entry}"
+/-- `null` | {"kind":"seq","w":[…]} | {"kind":"callable","table":[[n,[…]],…],"default":[…]|null}
+    | {"kind":"scalar"} -/
+def getWnd (j : Option Json) : Except String (WndArg Rat) := do
+  match j with
+  | none => pure .none
+  | some j =>
+    let kind ← getStr (← field j "kind")
+    match kind with
+    | "seq" => pure (.seq (← getList getRat (← field j "w")))
+    | "scalar" => pure .scalar
+    | "callable" =>
+      let rows ← getArr (← field j "table")
+      let table ← rows.mapM fun r => do
+        match r with
+        | Json.arr [n, l] => pure ((← getNat n), (← getList getRat l))
+        | _ => throw "bad table row"
+      let dflt ← match optField j "default" with
+        | none => pure none
+        | some d => pure (some (← getList getRat d))
+      pure (.callable fun n =>
+        match table.find? (·.1 = n) with
+        | some (_, l) => some l
+        | none => dflt)
+    | k => throw s!"unknown window kind {k}"
+
+def optNat (j : Json) (k : String) : Except String (Option Nat) :=
+  match optField j k with
+  | none => pure none
+  | some v => do pure (some (← getNat v))
+
+def errJson : Option Err → Json
+  | none => Json.null
+  | some e => Json.mkObj [("kind", Json.str e.kind), ("tag", Json.str e.tag)]
+
+def outJson (o : Out Rat) : Json :=
+  Json.mkObj [("out", rats o.out), ("err", errJson o.err)]
+
+/-- the statement of the property, evaluated only where it speaks: every block has `size` items,
+    `1 ≤ hop ≤ size`, the window (if any) has `size` items -/
+def specOf (blks : List (List Rat)) (size? hop? : Option Nat) (wnd : WndArg Rat) (normalize : Bool) :
+    Json :=
+  match detectSize size? blks with
+  | none => if blks.isEmpty then Json.mkObj [("out", rats []), ("gain", Json.null)] else Json.null
+  | some size =>
+    let hop := hop?.getD size
+    match resolveWnd size wnd with
+    | .error _ => Json.null
+    | .ok w0 =>
+      let w := truthy w0
+      let wOk : Bool := match w with | none => true | some l => l.length == size
+      if size = 0 ∨ hop = 0 ∨ hop > size ∨ wOk = false ∨ blks.any (fun b => b.length ≠ size) then Json.null
+      else
+        let g := gainSpec size hop normalize w
+        Json.mkObj [("out", rats (olaSpec g (wndSpec size w) size hop blks)),
+                    ("gain", ratToJson g)]
+
+
+/-- the conclusion of `ola_blocks_inverse` / `stft_identity` where their hypotheses hold
+    (hop ∣ size, hop-shifted copies of g*ws*wa sum to one): the covered samples are the input -/
+def coveredSpec (size hop : Nat) (g : Rat) (wsl wal : List Rat) (sig : List Rat) : Json :=
+  if hop = 0 ∨ size = 0 ∨ size % hop ≠ 0 then Json.null else
+  let cola := (List.range hop).all fun jj =>
+    sumTo (size / hop) (fun i => g * (wsl.getD (jj + i * hop) 0 * wal.getD (jj + i * hop) 0)) == 1
+  if cola then
+    let m := (ALV.C08.blocksClosed size hop (0 : Rat) sig).length
+    arr (fun n => Json.arr [natToJson n, ratToJson (sig.getD n 0)])
+      ((List.range (m * hop)).filter fun n => size - hop ≤ n)
+  else Json.null
+
+
+/-! ### stft -/
+
+def getPV (j : Json) : Except String PV :=
+  match j with
+  | Json.null => pure .none
+  | Json.int i => pure (.int i)
+  | Json.bool b => pure (.int (if b then 1 else 0))
+  | Json.str t => pure (.obj t)
+  | _ => throw s!"bad keyword value {j.compress}"
+
+def getDict (j : Json) : Except String Dict := do
+  let rows ← getArr j
+  rows.mapM fun r =>
+    match r with
+    | Json.arr [k, v] => do pure ((← getStr k), (← getPV v))
+    | _ => throw "bad keyword row"
+
+def pvJson : PV → Json
+  | .none => Json.null
+  | .int i => Json.int i
+  | .obj t => Json.str t
+
+def dictJson (d : Dict) : Json := arr (fun kv => Json.arr [Json.str kv.1, pvJson kv.2]) d
+
+/-- the block functions the tie uses as processing steps (same table in harness/props/c09.py) -/
+def blkFn (name : String) (a : Rat) : Option (List Rat → List Rat) :=
+  match name with
+  | "id" => some id
+  | "rev" => some List.reverse
+  | "neg" => some fun l => l.map (- ·)
+  | "scale" => some fun l => l.map (· * a)
+  | "shift" => some fun l => l.map (· + a)
+  | "rot" => some fun l => l.drop 1 ++ l.take 1
+  | "cumsum" => some fun l =>
+      (l.foldl (fun (acc : List Rat × Rat) x => (acc.1 ++ [acc.2 + x], acc.2 + x)) ([], 0)).1
+  | _ => none
+
+/-- `transform(blk, size)`-style steps -/
+def blkFn2 (name : String) (a : Rat) : Option (List Rat → Nat → List Rat) :=
+  match name with
+  | "addsize" => some fun l n => l.map (· + (n : Rat))
+  | "scalesize" => some fun l n => l.map (· * (n : Rat))
+  | "divsize" => some fun l n => l.map (· / (n : Rat))
+  | other => (blkFn other a).map fun f => fun l _ => f l
+
+inductive Res (β : Type) where
+  | ok (v : β)
+  | runErr (tag : String)      -- the model stops here: numpy default, unexpected ola keyword …
+
+def objOf (objs : Json) (tag : String) : Except String Json := field objs tag
+
+def stageOf (objs : Json) (v : PV) : Except String (Res (Option (String × Rat))) :=
+  match v with
+  | .none => pure (.ok none)
+  | .int _ => pure (.runErr "stage-not-callable")
+  | .obj tag =>
+    if tag = "NotSpecified" then pure (.runErr "numpy-default") else do
+      let o ← objOf objs tag
+      let name ← getStr (← field o "name")
+      let a ← getRat (fieldD o "arg" (Json.int 0))
+      pure (.ok (some (name, a)))
+
+def wndOf (objs : Json) (v : PV) : Except String (WndArg Rat) :=
+  match v with
+  | .none => pure .none
+  | .int _ => pure .scalar
+  | .obj tag => do
+    let o ← objOf objs tag
+    getWnd (some (← field o "wnd"))
+
+def traceJson (t : List (List (String × List Rat))) : Json :=
+  arr (arr fun e => Json.arr [Json.str e.1, rats e.2]) t
+
+def natOfPV (v : PV) : Except String (Option Nat) :=
+  match v with
+  | .none => pure none
+  | .int i => if i < 0 then throw "negative size/hop" else pure (some i.toNat)
+  | .obj _ => throw "size/hop is an object"
+
+/-- `ola_params` understood as `overlap_add.list` arguments; `none` = unexpected keyword -/
+def olaCallOf (objs : Json) (d : Dict) : Except String (Option (OlaCall Rat)) := do
+  if d.any (fun kv => kv.1 ∉ ["size", "hop", "wnd", "normalize"]) then return none
+  let size? ← natOfPV ((dictGet d "size").getD .none)
+  let hop? ← natOfPV ((dictGet d "hop").getD .none)
+  let wnd ← wndOf objs ((dictGet d "wnd").getD .none)
+  let normalize := match dictGet d "normalize" with
+    | some (.int i) => i ≠ 0
+    | some .none => false
+    | _ => true
+  return some { size? := size?, hop? := hop?, wnd := wnd, normalize := normalize }
+
+def stagesOf (tr itr bef aft : Option (String × Rat)) (fn : String × Rat) :
+    Except String (Stages Rat) := do
+  let f1 (o : Option (String × Rat)) : Except String (Option (List Rat → List Rat)) :=
+    match o with
+    | none => pure none
+    | some (n, a) => match blkFn n a with
+      | some f => pure (some f)
+      | none => throw s!"unknown block function {n}"
+  let f2 (o : Option (String × Rat)) : Except String (Option (List Rat → Nat → List Rat)) :=
+    match o with
+    | none => pure none
+    | some (n, a) => match blkFn2 n a with
+      | some f => pure (some f)
+      | none => throw s!"unknown block function {n}"
+  let func ← match blkFn fn.1 fn.2 with
+    | some f => pure f
+    | none => throw s!"unknown block function {fn.1}"
+  pure { before := ← f1 bef, transform := ← f2 tr, func := func, inverse := ← f2 itr, after := ← f1 aft }
+
+def isId (o : Option (String × Rat)) : Bool :=
+  match o with
+  | none => true
+  | some (n, _) => n = "id"
+
+/-- candidate keyword names at which the lookup specification is evaluated -/
+def probeKeys (merged : Dict) : List String :=
+  let raw := merged.map (·.1)
+  let stripped := raw.map fun k => String.ofList (k.toList.drop 4)
+  (["size", "hop", "wnd", "normalize"] ++ raw ++ stripped).eraseDups
+
+def stftEntry (j : Json) : Except String Json := do
+  let chain ← getList getDict (← field j "chain")
+  let call ← getDict (← field j "call")
+  let objs := fieldD j "objs" (Json.mkObj [])
+  let sig ← getList getRat (← field j "sig")
+  let fnTag ← getStr (← field j "func")
+  let kwparams := stftDefaults chain
+  let merged := dictUpdate kwparams call
+  match stftPlan kwparams call with
+  | .error e =>
+    pure <| Json.mkObj [("model", Json.mkObj [("plan_err",
+      Json.mkObj [("kind", Json.str e.kind), ("tag", Json.str e.tag)])]), ("spec", Json.null)]
+  | .ok plan =>
+    let planJ := Json.mkObj [("blk", dictJson plan.blkParams), ("ola", pvJson plan.ola),
+      ("ola_params", dictJson plan.olaParams)]
+    -- specification of the keywords handed to the overlap-add
+    let szV := (dictGet merged "size").getD .none
+    let hopV := (dictGet merged "hop").getD .none
+    let kwSpec : Json := arr (fun k => Json.arr [Json.str k,
+        match olaKwSpec szV hopV merged k with | some v => pvJson v | none => Json.str "<absent>"])
+      (probeKeys merged)
+    let stop (tag : String) (spec : List (String × Json)) : Except String Json :=
+      pure <| Json.mkObj [("model", Json.mkObj [("plan", planJ), ("run_err", Json.str tag)]),
+        ("spec", Json.mkObj spec)]
+    let bp := plan.blkParams
+    let get (k : String) := (dictGet bp k).getD .none
+    let size? ← natOfPV (get "size")
+    let some size := size? | throw "size None is outside the model"
+    if size = 0 then throw "size 0 is outside the model"
+    let hop? ← natOfPV (get "hop")
+    if hop? = some 0 then throw "hop 0 is outside the model"
+    let wnd ← wndOf objs (get "wnd")
+    -- the overlap-add strategy is called first (an unexpected keyword raises at the call) …
+    let olaR : Res (Option (Option (OlaCall Rat))) ← match plan.ola with
+      | .none => pure (.ok (some none))
+      | .int _ => throw "ola is an int"
+      | .obj tag =>
+        -- the default strategy `overlap_add` (numpy) has the same signature as `overlap_add.list`
+        match ← olaCallOf objs plan.olaParams with
+        | none => pure (.runErr "ola-kwarg")
+        | some c =>
+          if tag = "overlap_add" then pure (.ok none) else do
+            let o ← objOf objs tag
+            let _ ← getStr (← field o "name")
+            pure (.ok (some (some c)))
+    let .ok ola := olaR | stop "ola-kwarg" [("ola_kwargs", kwSpec)]
+    -- … the numpy defaults are imported when the first block is asked for
+    let unres (r : Res (Option (String × Rat))) : Bool × Option (String × Rat) :=
+      match r with | .ok v => (false, v) | .runErr _ => (true, none)
+    let (n1, tr) := unres (← stageOf objs (get "transform"))
+    let (n2, itr) := unres (← stageOf objs (get "inverse_transform"))
+    let (n3, bef) := unres (← stageOf objs (get "before"))
+    let (n4, aft) := unres (← stageOf objs (get "after"))
+    let needsNumpy := n1 || n2 || n3 || n4
+    let fo ← objOf objs fnTag
+    let fn : String × Rat := (← getStr (← field fo "name"), ← getRat (fieldD fo "arg" (Json.int 0)))
+    let st ← stagesOf tr itr bef aft fn
+    let trace := blkGenTrace size hop? wnd st sig
+    -- specification: what `func` receives (window first), from the closed form of C08
+    let hop := hop?.getD size
+    let wres := resolveWndStft size wnd
+    let befF := st.before.getD id
+    let trF : List Rat → List Rat := match st.transform with | some f => (f · size) | none => id
+    let funcSpec : Json := if needsNumpy then Json.null else match wres with
+      | .ok w => arr rats (funcInputSpec (ALV.C08.blocksClosed size hop (0 : Rat)) w befF trF sig)
+      | .error _ => Json.null
+    let some olaCall := ola | stop "numpy-default" [("ola_kwargs", kwSpec), ("func_inputs", funcSpec)]
+    let r := stftRun needsNumpy size hop? wnd st olaCall sig
+    let runJ := Json.mkObj [
+      ("blocks", match r.blocks with | some bs => arr rats bs | none => Json.null),
+      ("out", rats r.out), ("err", errJson r.err),
+      ("trace", if needsNumpy then Json.arr [] else traceJson trace)]
+    -- specification: identity processing + COLA ⇒ the covered samples are the input samples
+    let covered : Json := match olaCall, wres with
+      | some c, .ok wa =>
+        let identity := !needsNumpy && isId tr && isId itr && isId bef && isId aft && fn.1 = "id"
+        match c.size?, resolveWnd size c.wnd with
+        | some osz, .ok ws0 =>
+          let ohop := c.hop?.getD osz
+          let ws := truthy ws0
+          let wsOk : Bool := match ws with | none => true | some l => l.length == size
+          if identity && osz == size && ohop == hop && hop ≤ size && size % hop == 0 && wsOk then
+            coveredSpec size hop (gainSpec size hop c.normalize ws) (wndSpec size ws) (wndSpec size wa) sig
+          else Json.null
+        | _, _ => Json.null
+      | _, _ => Json.null
+    pure <| Json.mkObj [("model", Json.mkObj [("plan", planJ), ("run", runJ)]),
+      ("spec", Json.mkObj [("ola_kwargs", kwSpec), ("func_inputs", funcSpec), ("covered", covered)])]
+
+def handle (entry : String) (j : Json) : Except String Json := do
+  match entry with
+  | "ola" =>
+    let blks ← getList (getList getRat) (← field j "blks")
+    let size? ← optNat j "size"
+    let hop? ← optNat j "hop"
+    let wnd ← getWnd (optField j "wnd")
+    let normalize ← getBool (fieldD j "normalize" (Json.bool true))
+    let m := overlapAddList blks size? hop? wnd normalize
+    pure <| Json.mkObj [("model", outJson m), ("spec", specOf blks size? hop? wnd normalize)]
+  | "ola_sig" =>
+    -- block a signal with the C08 model, overlap-add the blocks
+    let sig ← getList getRat (← field j "sig")
+    let bsize ← getNat (← field j "bsize")
+    let bhop ← getNat (← field j "bhop")
+    if bsize = 0 ∨ bhop = 0 then throw "bsize and bhop must be positive"
+    let size? ← optNat j "size"
+    let hop? ← optNat j "hop"
+    let wnd ← getWnd (optField j "wnd")
+    let normalize ← getBool (fieldD j "normalize" (Json.bool true))
+    let blks := ALV.C08.blocks bsize bhop (0 : Rat) sig
+    let m := overlapAddList blks size? hop? wnd normalize
+    let covered : Json :=
+      match resolveWnd bsize wnd with
+      | .ok w0 =>
+        let w := truthy w0
+        let wOk : Bool := match w with | none => true | some l => l.length == bsize
+        if wOk && (size? == none || size? == some bsize) && hop?.getD bsize == bhop && bhop ≤ bsize
+            && !(size? == none && blks.isEmpty) then
+          coveredSpec bsize bhop (gainSpec bsize bhop normalize w) (wndSpec bsize w)
+            (List.replicate bsize 1) sig
+        else Json.null
+      | .error _ => Json.null
+    let spec := specOf (ALV.C08.blocksClosed bsize bhop (0 : Rat) sig) size? hop? wnd normalize
+    pure <| Json.mkObj [("model", outJson m), ("spec", spec), ("covered", covered),
+      ("n_blocks", natToJson blks.length)]
+  | "stft" => stftEntry j
+  | _ => throw s!"C09: unknown entry {entry}"
 
 end ALV.Driver.C09
